@@ -61,6 +61,8 @@ SameType(v, w) == IsB(v) <=> IsB(w)
 PtrConv(w, v) == IsB(w) => IsB(v)
 \* an rvalue of w can initialise / be assigned to v
 MoveConv(w, v) == PtrConv(w, v) /\ (IsU(v) => IsU(w))
+\* ... except that nostd offers no `shared_ptr<Base> = unique_ptr<Derived>&&` (two user conversions)
+AssignConv(w, v) == MoveConv(w, v) /\ ~(IsU(w) /\ ~IsU(v) /\ ~SameType(v, w))
 \* an lvalue of w can be copied into v (nostd::shared_ptr has no converting copy)
 CopyConv(w, v) == ~IsU(w) /\ ~IsU(v) /\ SameType(v, w)
 Swappable(v, w) == (IsU(v) <=> IsU(w)) /\ SameType(v, w)
@@ -161,7 +163,7 @@ AssignCopySelfDev(v) ==
                                    expDev |-> <<ObsOf(scope, own, [ost EXCEPT ![o] = "dead"], {o}, OOS)>>])
 
 AssignMove(v, w) ==    \* v = std::move(w), v # w
-  /\ v \in scope /\ w \in scope /\ v # w /\ MoveConv(w, v)
+  /\ v \in scope /\ w \in scope /\ v # w /\ AssignConv(w, v)
   /\ Plain("AssignMove", v, w, scope, [own EXCEPT ![v] = own[w], ![w] = Null], raw, {}, {own[v]}, OOS)
 
 \* v = std::move(v): valid but unspecified -- unchanged or emptied (never dangling, never leaked)
